@@ -21,11 +21,11 @@ COMMON_NOTE = ('Trusted: Coq 8.16.1 kernel (no native_compute), translator gen_t
 CLAIMED.update({
  'C20': dict(
    technique='Coq proof of parse(serialize p)=p, case folding and wire format over an executable packet model + differential correspondence',
-   text='Six theorems over a hand-written model of all six packet classes (serialiser, parser with the two regexes as explicit scanners, '
+   text='Eight theorems over a hand-written model of all six packet classes (serialiser, parser with the two regexes as explicit scanners, '
         'UTF-8 / ASCII decoding, dict semantics): round trip for every packet value in normal form, case folding for any letter case, wire '
         'format; tied to tftp.py by regenerated constants/regex text and by differential testing of Packet.from_bytes / bytes(packet) '
         'on thousands of structured and hostile datagrams, plus an independent wire decoder.',
-   note=COMMON_NOTE + 'Second direction (parse d = p => parse(serialize p) = p for arbitrary datagrams) is checked by correspondence/oracle only.',
+   note=COMMON_NOTE + 'Both directions of the round trip are theorems (the second for every datagram whose packet is serialisable).',
    design='§7 C20'),
  'C01': dict(
    technique='Coq inductive invariant over all schedules (data_sound) + RFC client refinement + differential correspondence under an adversarial network',
